@@ -15,7 +15,9 @@ EXPLANATION = (
     "Contains/StartsWith/EndsWith are exactly the documented ones with `_ => false`.")
 DECIDED = ["R15a and/or truth tables (TABLE, exhaustive 9+9 rows)", "R15b distance and count comparison tables (TABLE)",
            "R15c modifier and logic dispatch (cut-set per arm)", "R15d type-strict ordering comparisons (DOM)",
-           "R15e contains/starts_with/ends_with accepted type pairs (TABLE)"]
+           "R15e contains/starts_with/ends_with accepted type pairs (TABLE)",
+           "R15f the ids condition compares signed ids",
+           "R14a-c traversal sibling rules (shared with C14)"]
 UNDECIDED = ["extent of a traversal on a concrete graph (needs execution)",
              "element-level semantics of contains/starts_with/ends_with payload operations (std library calls)"]
 
